@@ -463,8 +463,29 @@ def judge_fetch_(case, env):
     return True, "", None
 
 
+def struct_ok(v, depth=0):
+    """ENVELOPE / BODYSTRUCTURE values: nested lists whose leaves are NIL,
+    numbers or quoted strings (RFC 3501 nstring / number), nothing else"""
+    if depth > 40:
+        return False
+    if v == b"NIL" or v.isdigit():
+        return True
+    if v.startswith(b'"'):
+        return T.unquote(v) is not None and T.tokb(v)
+    if v.startswith(b"(") and v.endswith(b")"):
+        if v == b"()":
+            return False
+        tk = T.tokens(v[1:])
+        if tk is None or tk[1] != b")":
+            return False
+        return all(struct_ok(t, depth + 1) for t in tk[0])
+    return False
+
+
 def value_problem(it, en, v, env, msg):
     k = it["k"]
+    if k in ("ENVELOPE", "BODYSTRUCTURE", "BODY") and not struct_ok(v):
+        return "%s value is not a list of NIL / number / quoted string / list: %r" % (k, v[:200])
     if k == "UID" and v != b"%d" % env["uid"]:
         return "UID value %r" % v
     if k == "RFC822.SIZE" and msg is not None and v != b"%d" % len(msg):
@@ -511,18 +532,26 @@ def value_problem(it, en, v, env, msg):
 
 
 def judge_list(kw, recv, known_names):
-    if not T.wf_stream(recv):
-        return False, "%s stream not well-formed" % kw
-    for l in T.split_responses(recv):
+    """-> list of (ok, reason, line) for every untagged LIST/LSUB line (they carry no
+    literals, so physical lines are response lines)"""
+    out = []
+    for l in recv.split(b"\r\n"):
         if not l.startswith(b"* " + kw.encode() + b" "):
             continue
+        l += b"\r\n"
+        if not T.wf_stream(l):
+            out.append((False, "%s line not well-formed: %r" % (kw, l), l))
+            continue
         tk = T.tokens(l[len(kw) + 3:-2])
-        if tk is None or tk[1] != b"" or len(tk[0]) != 3:
-            return False, "%s line does not have the shape (attrs) delimiter name: %r" % (kw, l)
+        if tk is None or tk[1] != b"" or len(tk[0]) != 3 or not tk[0][0].startswith(b"("):
+            out.append((False, "%s line does not have the shape (attrs) delimiter name: %r" % (kw, l), l))
+            continue
         name = T.unquote(tk[0][2])
         if name is None or name not in known_names:
-            return False, "%s name read back %r is not a stored mailbox name" % (kw, name)
-    return True, ""
+            out.append((False, "%s name read back %r is not a stored mailbox name" % (kw, name), l))
+    if not T.wf_stream(recv) and not out:
+        out.append((False, "%s stream not well-formed" % kw, recv))
+    return out
 
 
 def judge_status(name, recv):
@@ -795,11 +824,12 @@ def evaluate(chk, scs, results, label):
                 known.add(b"/".join(segs[:j]))
         hostile_names = [mb for mb in known if not name_plain(mb)]
         for lc in an["lists"]:
-            ok, why = judge_list(lc["kw"], lc["recv"], known)
-            if not ok:
+            for ok, why, line in judge_list(lc["kw"], lc["recv"], known):
+                # excused only when the failing line is the line of a stored name with a quote/backslash
+                mine = [mb for mb in hostile_names if line.endswith(b'"' + mb + b'"\r\n')]
                 chk.violation("%s \"\" \"*\": %s" % (lc["kw"], why),
                               {"suite": "wire", "scenario": scenario_payload(sc), "command": lc["kw"], "response": C.latin(lc["recv"][:3000])},
-                              cls="name_unescaped" if hostile_names else None)
+                              cls="name_unescaped" if mine else None)
         for st in an["status"]:
             ok, why = judge_status(st["name"], st["recv"])
             if not ok:
